@@ -411,6 +411,89 @@ def check_sizes_shared(chk, F):
     check_num_size(chk, F)
 
 
+# ---- R04.6 the context's key pushes ------------------------------------------------------------------------------------
+
+def check_key_pushes(chk, F):
+    from ..interp import Machine, Adt, Term, PyVec, Panic
+    from ..builtins import deref
+    rid = "R04.6"
+    chk.rule(rid, "MsKeyBuilder::push_ms_key / push_ms_key_hash (the pushes Terminal::encode uses for keys) and "
+                  "ToPublicKey::to_pubkeyhash: in an ECDSA context the key is pushed in its own serialization (33 bytes when "
+                  "compressed, 65 when not) and hashed over those same bytes; in the Schnorr context the 32-byte x-only "
+                  "serialization is pushed / hashed; decided on a compressed and an uncompressed key by evaluating the "
+                  "functions with byte-form models of rust-bitcoin's key serializers")
+    try:
+        pmk = [q for q in F.fn("push_ms_key", file="util.rs", allow_many=True) if " as " in q or "Builder" in q]
+        pmh = [q for q in F.fn("push_ms_key_hash", file="util.rs", allow_many=True) if " as " in q or "Builder" in q]
+    except KeyError as e:
+        chk.fail(rid, "anchor", "missing %s" % e, kind="unanalysable")
+        return
+    pmk = [q for q in pmk if q in F.bodies]
+    pmh = [q for q in pmh if q in F.bodies]
+    tph = [q for q in F.fns if q.endswith("ToPublicKey::to_pubkeyhash") and q in F.bodies]
+    if len(pmk) != 1 or len(pmh) != 1 or len(tph) != 1:
+        chk.fail(rid, "anchor", "push_ms_key / push_ms_key_hash / to_pubkeyhash bodies: %r %r %r" % (pmk, pmh, tph), kind="unanalysable")
+        return
+    chk.saw(pmk[0], pmh[0], tph[0])
+
+    def form(pk, which):
+        """bytes of a key in a given form; `own` = by its compressed flag"""
+        pk = deref(pk)
+        name, comp = pk.fields["inner"], pk.fields["compressed"]
+        if which == "own":
+            which = "compressed" if comp else "uncompressed"
+        return ("bytes", name, which)
+    m = Machine(F, strict=True)
+    h = m.hooks
+    h["bitcoin::script::Builder::push_key"] = lambda m_, a, c: PyVec(list(deref(a[0]).items) + [form(a[1], "own")])
+    h["bitcoin::script::Builder::push_slice"] = lambda m_, a, c: PyVec(list(deref(a[0]).items) + [deref(a[1])])
+    h["bitcoin::PublicKey::to_bytes"] = lambda m_, a, c: form(a[0], "own")
+    h["bitcoin::PublicKey::pubkey_hash"] = lambda m_, a, c: ("hash160", form(a[0], "own"))
+    h["bitcoin::secp256k1::PublicKey::serialize"] = lambda m_, a, c: ("bytes", deref(a[0]), "compressed")
+    h["bitcoin::secp256k1::PublicKey::serialize_uncompressed"] = lambda m_, a, c: ("bytes", deref(a[0]), "uncompressed")
+    h["bitcoin::XOnlyPublicKey::serialize"] = lambda m_, a, c: ("bytes", deref(a[0])[1], "x-only")
+    h["bitcoin::secp256k1::XOnlyPublicKey::serialize"] = h["bitcoin::XOnlyPublicKey::serialize"]
+    h["ToPublicKey::to_public_key"] = lambda m_, a, c: deref(a[0])
+    h["ToPublicKey::to_x_only_pubkey"] = lambda m_, a, c: ("xonly", deref(a[0]).fields["inner"])
+    for nm in ("bitcoin::PubkeyHash::hash", "bitcoin::hashes::Hash::hash", "bitcoin::bitcoin_hashes::Hash::hash",
+               "bitcoin::hashes::hash160::Hash::hash", "bitcoin::bitcoin_hashes::hash160::Hash::hash"):
+        h[nm] = lambda m_, a, c: ("hash160", deref(a[0]))
+    h["<bitcoin::PubkeyHash as bitcoin::bitcoin_hashes::Hash>::hash"] = lambda m_, a, c: ("hash160", deref(a[0]))
+    CTXS = {"Legacy": "ecdsa", "Segwitv0": "ecdsa", "BareCtx": "ecdsa", "Tap": "schnorr"}
+    SIG = {"ecdsa": "Ecdsa", "schnorr": "Schnorr"}
+    for ctx, kind in CTXS.items():
+        ctxp = "miniscript::context::" + ctx
+        for kname, comp in (("K", True), ("U", False)):
+            key = Adt("bitcoin::PublicKey", "PublicKey", {"compressed": comp, "inner": kname})
+            want_bytes = ("bytes", kname, "x-only") if kind == "schnorr" else ("bytes", kname, "compressed" if comp else "uncompressed")
+            try:
+                r = m.call_callee({"def": pmk[0], "resolved": pmk[0], "name": "push_ms_key", "targs": ["bitcoin::PublicKey", ctxp]},
+                                  [PyVec([]), key])
+                got = list(deref(r).items)
+                chk.obligation(rid, got == [want_bytes], "push_ms_key|%s|%s" % (ctx, "compressed" if comp else "uncompressed"),
+                               "push_ms_key in %s pushes %r for a %s key, expected %r" % (ctx, got, "compressed" if comp else "uncompressed", want_bytes),
+                               F.fns[pmk[0]]["span"])
+                r = m.call_callee({"def": pmh[0], "resolved": pmh[0], "name": "push_ms_key_hash", "targs": ["bitcoin::PublicKey", ctxp]},
+                                  [PyVec([]), key])
+                got = list(deref(r).items)
+                chk.obligation(rid, got == [("hash160", want_bytes)], "push_ms_key_hash|%s|%s" % (ctx, "compressed" if comp else "uncompressed"),
+                               "push_ms_key_hash in %s pushes %r, expected the HASH160 of %r" % (ctx, got, want_bytes), F.fns[pmh[0]]["span"])
+            except (Unsupported, Panic) as e:
+                chk.fail(rid, "unanalysable:%s|%s" % (ctx, kname), "unanalysable: %s" % e, where=getattr(e, "where", ""), kind="unanalysable")
+    for kind in ("ecdsa", "schnorr"):
+        for kname, comp in (("K", True), ("U", False)):
+            key = Adt("bitcoin::PublicKey", "PublicKey", {"compressed": comp, "inner": kname})
+            want_bytes = ("bytes", kname, "x-only") if kind == "schnorr" else ("bytes", kname, "compressed" if comp else "uncompressed")
+            try:
+                r = m.call_callee({"def": tph[0], "resolved": tph[0], "name": "to_pubkeyhash", "targs": ["bitcoin::PublicKey"]},
+                                  [key, Adt("miniscript::context::SigType", SIG[kind], {})])
+                chk.obligation(rid, deref(r) == ("hash160", want_bytes), "to_pubkeyhash|%s|%s" % (kind, kname),
+                               "to_pubkeyhash(%s) of a %s key hashes %r, expected %r" % (kind, "compressed" if comp else "uncompressed", deref(r), want_bytes),
+                               F.fns[tph[0]]["span"])
+            except (Unsupported, Panic) as e:
+                chk.fail(rid, "unanalysable:to_pubkeyhash|%s|%s" % (kind, kname), "unanalysable: %s" % e, where=getattr(e, "where", ""), kind="unanalysable")
+
+
 def run(chk):
     F = chk.facts()
     chk.explanation = (
@@ -446,3 +529,4 @@ def run(chk):
     from . import decoder
     decoder.check_decoder(chk, F)
     chk.guard("R04.5", "decoder-canonical", decoder.check_decoder_canonical, chk, F)
+    chk.guard("R04.6", "key-pushes", check_key_pushes, chk, F)
